@@ -69,6 +69,11 @@ _MONTH_FULL = list(_MONTH_ABBREV_TO_FULL.values())
 _LOWERCASE_FULL = list(m.lower() for m in _MONTH_FULL)
 
 
+def _is_small_ascii_int(v) -> bool:
+    """True for strings of a few ASCII digits (the only ones which may denote a month)."""
+    return isinstance(v, str) and v.isascii() and v.isdigit() and len(v.lstrip("0")) <= 2
+
+
 class MonthLongStringMiddleware(_MonthInterpolator):
     """Replace month numbers with full month names.
 
@@ -88,7 +93,7 @@ class MonthLongStringMiddleware(_MonthInterpolator):
     # docstr-coverage: inherited
     def resolve_month_field_val(self, month_field: Field):
         v = month_field.value
-        if isinstance(v, str) and v.isdigit():
+        if _is_small_ascii_int(v):
             v = int(v)
         if isinstance(v, int):
             if v < 1 or v > 12:
@@ -132,7 +137,7 @@ class MonthAbbreviationMiddleware(_MonthInterpolator):
     # docstr-coverage: inherited
     def resolve_month_field_val(self, month_field: Field):
         v = month_field.value
-        if isinstance(v, str) and v.isdigit():
+        if _is_small_ascii_int(v):
             v = int(v)
         if isinstance(v, int):
             if v < 1 or v > 12:
@@ -180,7 +185,7 @@ class MonthIntMiddleware(_MonthInterpolator):
                     "transformed abbreviated month to int-month",
                 )
 
-        if isinstance(v, str) and v.isdigit():
+        if _is_small_ascii_int(v):
             if 1 <= int(v) <= 12:
                 return int(v), "cast month int-string to int"
 
